@@ -12,194 +12,335 @@ Definition show_fres (r : fres) : string :=
   end.
 Definition check (rs : list rune) : string := digest (show_fres (format_res rs)).
 Definition full (rs : list rune) : string := show_fres (format_res rs).
-Eval vm_compute in ("<<<M1688>>>" ++ check (runes_of_ascii "packet A {
-    @rightPad('0')
-    repeat i8i8 {
-        zchar[007] packetx,
-        metadata `" ++ [28040; 24687; 31867; 22411]%N ++ runes_of_ascii "`,
-        repeat float64 T,
-    },
-    @tag(0)
-    Z9_ {
-        int @lengthOf(tag) `line1
-        line2`,
-        repeat i8i8 {
-            zchar[00] stringy,
-            repeat f32a {
-                match i64_ as string_ {
-                    [255, 0123456789, ""{,}""] : x_y_z,
-                    """ ++ [233]%N ++ runes_of_ascii "t" ++ [233]%N ++ runes_of_ascii """ : A,
-                    ""`tick`"" : len,
-                },
-            },
-            //
-            repeat u8x {
-                u16 Z9_ @calculatedFrom(""" ++ [128512]%N ++ runes_of_ascii """) `line1
-                line2`,
-                f32 matchKey,
-            },// " ++ [27880; 37322]%N ++ runes_of_ascii "
-            float64 u8x `
-            `,
-        },//
-    },// `tick` ""quote"" 'q'
-    a1 {
-        repeat zchar[007] Foo `two words`,
-        f32a @calculatedFrom(""" ++ [28040; 24687]%N ++ runes_of_ascii """),
-        int64 i64_ @calculatedFrom(""`tick`""),
-    },
-    @lengthOf(Header)
-    f32 stringy @calculatedFrom(""x y"") `say ""hi""`,
-    Foo,
-    float64 BodyLength @calculatedFrom(""packet""),
-    uint32 int,
-}
-
-packet string_ {
-    @tag(4294967296)
-    repeat u `two words`,
-    repeat zchar[0] BodyLength,
-    @tag(255)
-    /// triple
-    int `line1
-    line2`,
-    uint8x `it's`,
-    @tag(65535)
-    int8 metadata `" ++ [233]%N ++ runes_of_ascii "`,/// triple
-    match options1 as float {
-        3 : f32a,
-        """ ++ [28040; 24687]%N ++ runes_of_ascii """ : charz,
-    },
-    match uint8x as string_ {
-        ""CRC32"" : x,
-    },
-    uint8 packetx `crlf
-    line`,
-    @leftPad()
-    zchar[0] Foo `say ""hi""`,
-}")).
-Eval vm_compute in ("<<<M143>>>" ++ check (runes_of_ascii "
-packet  lengthOf
-{  @tag( 65535
+Eval vm_compute in ("<<<M198>>>" ++ check (runes_of_ascii "root packet int {
+// @lengthOf(
+// " ++ [27880; 37322]%N ++ runes_of_ascii "
+@calculatedFrom( ""packet"")match repeatCount as asx {// packet A { u8 x, }
+65535:int ,
+"""":
+    packetx
+, [ 1, ""it's"", 007 , 3,
+    ""a\\"" , 65535 ] : o,
+[ 7 , 1 ]:
+    len [ ""abc""	,""" ++ [28040; 24687]%N ++ runes_of_ascii """ ] : u
+,} ,// packet A { u8 x, }
+@rightPad ( ' ' ) // " ++ [27880; 37322]%N ++ runes_of_ascii "
+len
+    body `{ , }` , }packet repeatCount { string
+trueish
+,@tag(
+0 )	repeat
+tag/// triple
+`{ , }` , // `tick` ""quote"" 'q'
+@tag(255 // @lengthOf(
+) match packetx as
+string_
+    {
+10 :roots, }//
+,
+@leftPad
+(
+'\x00'	)
+    @tag( 7 ) repeat i8 // packet A { u8 x, }
+rootA
 /// triple
-//	t
-)@tag( //	t
-3 ) @tag( 0123456789) options1 @calculatedFrom(""abc""
-    ) , @rightPad
-( '0')falsey @lengthOf( a1  )
-    ,
-    @lengthOf(Pad
-)body @calculatedFrom( // " ++ [128512]%N ++ runes_of_ascii " emoji
-""packet"" ) // trailing space 
-,
-} packet int
-{ string Foo @calculatedFrom(""CRC32"" ) ,}
-root
-// trailing space 
-//	t
-packet uint8x
-    {}
-root packet len { x_y_z
-_x ,
-    BodyLength rootA
-/// triple
-//
-,
-match f32a as Logon
-    {[ ""a\""b"" ,
-""" ++ [28040; 24687]%N ++ runes_of_ascii """
-    ,
-    """ ++ [128512]%N ++ runes_of_ascii """
-,65535, 00 ,4294967296
-    ,
-"""" ,""abc"" ]
-    : roots,[
-    00 ] :
-A ,  [
-    65535
-// a // b
-// trailing space 
-,
-// trailing space 
 // " ++ [128512]%N ++ runes_of_ascii " emoji
-65535
-, """" ]
+`it's` , uint8x tag`a\` ,
+char[] Z9_ @calculatedFrom( //x
+""" ++ [233]%N ++ runes_of_ascii "t" ++ [233]%N ++ runes_of_ascii """
+    )
+, repeat float32
+trueish	, @leftPad ( /// triple
+'\x00'	)	i64_
+    @calculatedFrom( ""x y""
+    ) //
+, repeat f32 Packet ,  }
+    packet u
+    // c
+    {int64 pack@lengthOf(metadata ) ,	repeat
+    char[//	t
+0123456789 ] int
+    ``
+    , @lengthOf(
+    Header  )@calculatedFrom(""`tick`""
+)	float
+    trueish , @calculatedFrom(	""`tick`""
+    // a // b
+    ) stringy ,// " ++ [128512]%N ++ runes_of_ascii " emoji
+repeat Logon  `it's`  ,
+int32  Z9_ @calculatedFrom(
+""\n""), match// c
+u8x as falsey {
+255 : f32a ,
+00:packetx
+, } ,
+zchar[	0 ] roots , @tag( 00) Logon {
+    i64_
+@lengthOf( MetaDataX //
+) ``
+    , repeat body
+MetaDataX `it's`, x { string rootA ``
+    // a // b
+    , repeat options1 f32a , }//
+, Pad
+, // `tick` ""quote"" 'q'
+} , @calculatedFrom( ""1""
+    // packet A { u8 x, }
+    )@lengthOf(T ) char[
+7 ]	pack	`{ , }`	, } MetaData u {
+} /// triple")).
+Eval vm_compute in ("<<<M1775>>>" ++ check (runes_of_ascii "
+root  packet	// " ++ [27880; 37322]%N ++ runes_of_ascii "
+
+crc
+{
+	@lengthOf(
+    As	)
+
+    @calculatedFrom( ""\" ++ [233]%N ++ runes_of_ascii """  ) 
+zchar[4294967296 ] 
+MetaDataX`doc` 
+, 	 /// triple
+	rootA @calculatedFrom(
+	""it's""  )
+,
+	@tag(  65535
+) @tag( // c
+  	7
+)
+    @tag( 00 
+	//
 // c
-// packet A { u8 x, }
-:
-// " ++ [128512]%N ++ runes_of_ascii " emoji
+)
+
+len@lengthOf(
+	A
+    )	`two words`  ,
+	// trailing space 
+  	// " ++ [128512]%N ++ runes_of_ascii " emoji
+
+string
+rootA  @lengthOf(
+
+pack
 // trailing space 
-pack ,
+  //	t
+    ) ,  
+      // " ++ [128512]%N ++ runes_of_ascii " emoji
+
+  // trailing space 
+  repeat 
+zchar
+, 
+@calculatedFrom(
+
+    ""abc""
+
+)
+@leftPad
+('\x00'
+)
+
+    @rightPad  (
+    )
+
+match
+
+    x_y_z
+	as
+
+    Z9_ 
+{  ""it's""
+    :
+    Logon	//x
+
+, ""x y"" : Packet,	""abc""  :
+
+    trueish
+
+    4294967296// @lengthOf(
+  	:
+repeatCount """ ++ [128512]%N ++ runes_of_ascii """ :
+x_y_z
+}
+
+, char[  10// @lengthOf(
+    ]  stringy
+    `it's` ,
+
+@leftPad ('\x00'
+
+)
+	rootA @lengthOf(
+	i64_ ),
+	}	MetaData
+falsey
+{ Packet repeatCount`tab	here`, 
+} MetaData
+
+string_{ float64 roots	`line1
+line2`
+,char
+    As 	 //
+`
+`
+,zchar[ 65535  ]  falsey
+	`a\`	,
+A T ,
+	_x  metadata ,	}
+
+packet
+	_x 	 // packet A { u8 x, }
+    	{
+    zchar[
+
+255	]string_ @lengthOf(  
+  //	t
+	// @lengthOf(
+
+u128 
+)
+    `{ , }`  ,
+
     }
-    // trailing space 
-    ,repeat Pad `say ""hi""` ,
-    /// triple
-    a1 calculatedFrom
+root
+packet Packet
+
+{
+
+    repeat	// " ++ [128512]%N ++ runes_of_ascii " emoji
+  lengthOf 
+,
+
+    }
+")).
+Eval vm_compute in ("<<<M1352>>>" ++ check (runes_of_ascii "  options
+    { 
+StringPrefixLenType 
+=
+    u64 ; ArrayPrefixLenType  =u32	;  FixedStringPadFromLeft	=false
+    ; 
+}
+packet	Party
+{ zchar[
+	7
+
+]
+OrderId
+    ,InTail6 { repeat
+
+char[
+
+1
+
+] msgKind
+	,
+char[
+    3 ] 
+Tail
     ,
-@lengthOf( stringy )char[] As @calculatedFrom( ""\" ++ [233]%N ++ runes_of_ascii """ )
-, zchar[ 0123456789 ] Z9_
-    @lengthOf( repeatCount ) // packet A { u8 x, }
-`a\`
-, repeat // `tick` ""quote"" 'q'
-string lengthOf , //x
-u8 falsey @calculatedFrom(
-""a\\"" )  ,@calculatedFrom( ""it's"") string calculatedFrom @lengthOf( MetaDataX ) ,}")).
-Eval vm_compute in ("<<<M1661>>>" ++ check (runes_of_ascii "options {
-    FixedStringPadFromLeft = true;
-    FixedStringPadChar = '0';
-}
+    char[  3
+    ]
+Flags 
+, 
+i16
 
-packet Leg {
-    InPrice0 {
-        repeat string clOrdID,
-        int16 msgKind,
-        zchar[5] Px,
-    },
-    i16 f1,
-    repeat f64 Side2,
-    string Acct,
-}
+tag7
 
-packet Cancel {
-    zchar[4] clOrdID,
-    string seqNo,
-    Leg,
-    @leftPad('0')
-    char[11] OrderId,
-}
+, } , @rightPad(  '0'
+	)
+	char[ 12	] clOrdID
+    ,  }
 
-packet Quote {
-    repeat char[4] sym,
-    f64 OrderId,
-    repeat Leg,
-    repeat i64 f1,
-    int16 Note,
-    zchar[3] count,
-}
+    packet
+Quote
+    {
+	@leftPad 
+(
 
-root packet Ack {
-    @leftPad(' ')
-    char[10] sym,
-    InPx60 {
-        Cancel,
-        repeat char[1] f1,
-        string Tail,
-        repeat InNote55 {
-            int8 count,
-            f64 f1,
-            repeat Cancel,
-        },
-        char[] tag7,
-        repeat string msgKind,
-    },
-    u8 lastPx,
-    match lastPx as Body {
-        152 : Quote,
-        173 : Cancel,
-        4 : Leg,
-    },
-    u16 Ref @calculatedFrom(""CRC32""),
+    '0'	) char[
+    11 
+]
+
+    price, repeat InCount7{ i32
+x,	Party ,
+u8 
+Ref	, u8
+    tag7 ,	},
+	char[] seqNo
+
+,  Party 
+,
+
+} packet
+
+Logon
+{
+@rightPad
+
+    ( '\x00'	)
+	char[
+5
+]
+Note
+    , i16 sym  ,
+    InPrice72 {  char[
+	9
+	]
+
+Ref
+, zchar[  1
+    ]venue
+	,
+    }
+
+    ,
+	char[]
+clOrdID ,
+
+    }root  packet
+
+Reject
+    {repeat  Logon	,	@leftPad (
+' '
+)
+
+char[4
+]
+    seqNo  , zchar[5
+    ] 
+Acct
+
+    , 
+u32 x ,
+    u16
+f1
+
+    @lengthOf( 
+Body)
+,  match
+
+    x
+
+as 
+Body	{
+
+    [ 
+169
+
+, 
+74	] 
+:	Quote
+
+    , 45:
+Party
+    ,
+
+    7: Logon
+
+    ,} ,
 }")).
-Eval vm_compute in ("<<<M1551>>>" ++ check (runes_of_ascii "options {
+Eval vm_compute in ("<<<M1931>>>" ++ check (runes_of_ascii "options {
     FixedStringPadFromLeft = true;
     FixedStringPadChar = '0';
 }
@@ -253,351 +394,399 @@ root packet Order {
         159 : Fill,
     },
     u32 venue @calculatedFrom(""CR\
-    C32""),
-}")).
-Eval vm_compute in ("<<<M1849>>>" ++ check (runes_of_ascii "options {
-    StringPrefixLenType = u16;
-    ArrayPrefixLenType = u32;
-    FixedStringPadFromLeft = true;
-    FixedStringPadChar = '0';
-}
-
-packet Cancel {
-}
-
-packet Party {
-}
-
-packet Logon {
-}
-
-packet Ack {
-}
-
-packet Logout {
-    repeat InSym87 {
-        InClordid94 {
-            string clOrdID,
-        },
-        string Px,
-        i16 Qty,
-        repeat InCount71 {
-            repeat Cancel,
-            uint16 Tail,
-            char[2] x,
-            repeat string Ref,
-        },
-        Cancel,
-    },
-}
-
-root packet Order {
-    repeat string tag7,
-    @leftPad(' ')
-    char[3] Px,
-    u8 Qty,
-    match Qty as Body {
-        [28, 62] : Logon,
-        148 : Ack,
-        88 : Party,
-        184 : Cancel,
-    },
-    u16 Note @calculatedFrom(""CR\
         C32""),
 }")).
-Eval vm_compute in ("<<<M192>>>" ++ check (runes_of_ascii "// trailing space 
-options { f32a=
-false;	stringy=	true
-;
-u=  ""\" ++ [233]%N ++ runes_of_ascii """  ;
-    stringy = false;
-} packet options1 // " ++ [27880; 37322]%N ++ runes_of_ascii "
-{
-} MetaData
-packetx { f32 uint8x  ,  } root packet zchar {
-@tag( 4294967296
-) @lengthOf(a1
-)
-i8
-_x
-`it's` ,//x
-char[]	o , body
-    ,
-zchar[ 65535] msg_type
-`crlf
-line` , repeat
-    BodyLength{ repeat char[ 65535
-    ] stringy,
-},
-@calculatedFrom( """ ++ [128512]%N ++ runes_of_ascii """
-) @tag( 10
+Eval vm_compute in ("<<<M330>>>" ++ check (runes_of_ascii "root packet
+As {
+} MetaData Pad { string
+    metadata  `// not a comment` ,
+    }
+packet metadata
+    { string	charz
+`a\` , @leftPad ( ' ' )pack@lengthOf(x_y_z ), @calculatedFrom( ""packet"")
+match crc
+    as chars { [ ""packet"" ,7 ]
+    :  repeatCount }
+, Pad @lengthOf( matchKey
+    ),
+@calculatedFrom( ""\n""
+    )int64
+    Z9_ @lengthOf(
     // a // b
-    ) repeat f32
-lengthOf`line1
-line2` , repeat  u {
-    uint32 Z9_, //
-repeat body
-`
-` , }  , @tag( 4294967296
-) i64_ @lengthOf( tag
-    // packet A { u8 x, }
-    ), @lengthOf(//	t
-float) @lengthOf(
-    // " ++ [128512]%N ++ runes_of_ascii " emoji
-    packetx	) @calculatedFrom( """ ++ [128512]%N ++ runes_of_ascii """
-)	repeat x_y_z u  ,@tag( 65535 )u8
-A	,} //")).
-Eval vm_compute in ("<<<M164>>>" ++ check (runes_of_ascii "//x
-packet x { @lengthOf(
-string_ )
+    _x ),
+@lengthOf(repeatCount// trailing space 
+) repeat float
+{ u128 @lengthOf( zchar) , u8 crc
+, } ,
+    int64 pack, u128
+    `it's` , repeat
+// a // b
 // `tick` ""quote"" 'q'
-// trailing space 
-msg_type{
-int // a // b
-@lengthOf( chars
+i32 T , //	t
+@tag(00 ) rootA  @lengthOf(
+float
     )
-//x
-// " ++ [27880; 37322]%N ++ runes_of_ascii "
-`" ++ [28040; 24687; 31867; 22411]%N ++ runes_of_ascii "` , int`a\`  , }
-    ,uint32 chars  @calculatedFrom(
-""`tick`""
-    )
-    `
-` , @lengthOf( packetx // trailing space 
-)
-match
-    metadata as x_y_z
-{ 65535	: x ,007
-// `tick` ""quote"" 'q'
-// " ++ [128512]%N ++ runes_of_ascii " emoji
-: u [ 7 ,
-""// no comment""	,  """ ++ [28040; 24687]%N ++ runes_of_ascii """] :x ""a\\""
-: MetaDataX,0123456789 : lengthOf
-10 :
-//
-// `tick` ""quote"" 'q'
-float  }
-    ,
-    u16 Logon@calculatedFrom(""x y"") `tab	here`
-//	t
-//
-,@lengthOf(Foo ) zchar /// triple
-, }  packet
-    tag { } root packet
-x_y_z{ } MetaData int {
-    string
-A `" ++ [233]%N ++ runes_of_ascii "` ,
-}
-")).
-Eval vm_compute in ("<<<M1863>>>" ++ check (runes_of_ascii "packet pack {
-    u8 a1 `say ""hi""`,
-    @leftPad('\x00')
-    uint8 Logon `
-        `,
-    char[] lengthOf `" ++ [233]%N ++ runes_of_ascii "`,
-    //
-    //x
-    repeat char[] As,
-    @lengthOf(string_)
-    @calculatedFrom(""a\\"")
-    repeat u8x o,
-    char string_ @calculatedFrom(""a\""b"") `tab	here`,
-    repeat As {
-        char[0] i64_ @lengthOf(T) `" ++ [233]%N ++ runes_of_ascii "`,
-        char[4294967296] T @calculatedFrom(""\" ++ [233]%N ++ runes_of_ascii """),
-        trueish,
-        repeat int {
-            string Logon @calculatedFrom(""1""),
-            metadata,
-            uint32 Z9_,// " ++ [27880; 37322]%N ++ runes_of_ascii "
-        },
-    },
-    @tag(00)
-    //	t
-    i16 a1 `a\`,
-}")).
-Eval vm_compute in ("<<<M163>>>" ++ check (runes_of_ascii "options { As = // trailing space 
-zchar[ 4294967296] ; } //	t
-packet len // packet A { u8 x, }
-{ @lengthOf(
-_x) match
-    // c
-    lengthOf
-    as
-//
-// `tick` ""quote"" 'q'
-string_// c
-{
-    [ 4294967296 ]: i64_ ""a	b"": o
 ,
-}
-, leftPad
-    @calculatedFrom( ""`tick`""	)
+} MetaData Header // @lengthOf(
+{u32 u,	string A `crlf
+line` ,
+u16
+    roots `a\` ,int16 chars , }
+packet repeatCount { repeat char[
 // trailing space 
-// `tick` ""quote"" 'q'
-,@leftPad( '\x00' ) repeat charz /// triple
-msg_type
-,
-repeat i8
-Foo , }packet msg_type {
 //x
-// @lengthOf(
-@leftPad (
-'0'
-)
-u64 repeatCount @calculatedFrom(
-""" ++ [28040; 24687]%N ++ runes_of_ascii """) ,// packet A { u8 x, }
-}
-")).
-Eval vm_compute in ("<<<M253>>>" ++ check (runes_of_ascii "packet
-u	{ @lengthOf( //
-zchar )match Header as len  {
-    42// trailing space 
-:
-    x_y_z ,
+65535]
+    x `line1
+line2`
+, }")).
+Eval vm_compute in ("<<<M52>>>" ++ check (runes_of_ascii "  MetaData
     // " ++ [27880; 37322]%N ++ runes_of_ascii "
-    },rootA	`
-`	,	match u8x as pack {[ 1 , """" ]
-    : float , ""abc""  :
-string_ ,42 :
-    i64_/// triple
-,
-1:zchar
+    packetx { zchar[ 7 ] leftPad
+`// not a comment` ,	}	packet i64_{@calculatedFrom(
+"""" )
 // trailing space 
-// " ++ [128512]%N ++ runes_of_ascii " emoji
-} ,char[ 3 ] int ,
-match options1 as u128 { [ ""`tick`"" ] : u
-// packet A { u8 x, }
+// c
+@lengthOf(
+x_y_z ) @tag( 00
+)
+repeatCount
+    // packet A { u8 x, }
+    @calculatedFrom(""1"" ), } packet falsey { int16
+_x
+@calculatedFrom(	""it's"") , } // @lengthOf(
+root
+packet matchKey
+    {repeat u32  Pad  `" ++ [233]%N ++ runes_of_ascii "`, zchar[ 7 ]
+    leftPad
+,match chars as lengthOf
+{ 1 :
+o
+    42 : chars
+// trailing space 
+// c
+,
+}//x
+, repeat
+zchar[
+    255]
+a1, matchKey //
+Packet
+    // `tick` ""quote"" 'q'
+    ,
+f32
+    tag
+    ,
+// @lengthOf(
+// trailing space 
+@calculatedFrom(  ""a\""b"" ) @leftPad( ' ' ) @lengthOf(
+T) stringy
+@lengthOf( o) ,packetx  i64_ ,}
 /// triple
-, } ,	}
-options {	len	= //	t
-i8 // " ++ [27880; 37322]%N ++ runes_of_ascii "
-; zchar = true; } packet T{char[ 42 ] asx@calculatedFrom(""CRC32"" ) , }
 ")).
-Eval vm_compute in ("<<<M1467>>>" ++ check (runes_of_ascii "root packet Packet {
-    string o @calculatedFrom(""\" ++ [233]%N ++ runes_of_ascii """),
-    @lengthOf(Packet)
-    body @calculatedFrom(""x y"") `it's`,
-    float64 As @calculatedFrom(""`tick`""),
-    char[] stringy @calculatedFrom(""" ++ [28040; 24687]%N ++ runes_of_ascii """) `doc`,
-    @calculatedFrom(""a	b"")
-    match float as o {
-        [007, """ ++ [128512]%N ++ runes_of_ascii """] : metadata,
-    },
-    f32a a1 `a\`,
-}
-
-MetaData repeatCount {
-    packetx i64_ `" ++ [28040; 24687; 31867; 22411]%N ++ runes_of_ascii "`,
-    zchar[3] tag,
-    i8i8 int,
-}")).
-Eval vm_compute in ("<<<M106>>>" ++ check (runes_of_ascii "MetaData Pad
-    {
-    i16 repeatCount , // c
-f32 pack `a\`,} packet//
-f32a {@lengthOf( metadata // a // b
-)match msg_type as matchKey
-    {
-00: rootA ,  }, @rightPad ( ) match repeatCount as len {
-    [/// triple
-""x y""
-// c
-//
-,
-10] : As , 42: i64_""" ++ [128512]%N ++ runes_of_ascii """	: BodyLength
-, 7
-: f32a  ,
-    }
-    ,	@lengthOf( BodyLength )	repeat Foo `line1
-line2` , } // @lengthOf(")).
-Eval vm_compute in ("<<<M1369>>>" ++ check (runes_of_ascii "
-options { LittleEndian= 
-true  ;  }
-    packet 
-Logon
-
-{
-
-u8
-x
-,
-
-    }packet
-
-    Logout 
-{ u16	reason,} root  packet
-
-Frame
-{ u16 Kind  ,  u16
-Kind2 ,  match
-Kind as  Body
-    {
-    1 :
-
-Logon  ,
-    [	2 ,
-	3 ,	4]
-    :
-
-Logout
-, 100
-:Logon ,},
-    match	Kind2
-
-    as	Trailer{
-	0 
-:
-	Logout 
-,  }
-    ,	}")).
-Eval vm_compute in ("<<<M262>>>" ++ check (runes_of_ascii "  packet  Logon
-    { o Header ,	Header
-, @lengthOf(
-u )	char[ 255 ] tag `tab	here`, char[]falsey ,
-    @lengthOf(	zchar )
-    @rightPad (
-) float roots// @lengthOf(
-,
-@calculatedFrom(	""// no comment"") i64
-u8x,
-} options { metadata = '0' ;_x = 4294967296 ; Packet
-    =
-    '0'
-;
-    }
-
-")).
-Eval vm_compute in ("<<<M177>>>" ++ check (runes_of_ascii "root
-packet Logon {
-    @rightPad
-(// @lengthOf(
-'0' ) repeat
-    charz // " ++ [27880; 37322]%N ++ runes_of_ascii "
-{// " ++ [128512]%N ++ runes_of_ascii " emoji
-Z9_ `{ , }` , string string_ `say ""hi""` , repeat int8  rootA ,	match Foo	as
-pack {
-[ 42
-// c
-/// triple
-, 0 ] :u, ""a\""b"" : int
-,
-}
-// c
+Eval vm_compute in ("<<<M342>>>" ++ check (runes_of_ascii "root packet Z9_	{  repeat i8i8 int`// not a comment`
+,	uint8x
+    // c
+    , f64 i8i8  `tab	here` ,@tag(
+3 ) @tag( 3 ) @tag( /// triple
+10
+// trailing space 
+// trailing space 
+) repeat int{ MetaDataX // " ++ [27880; 37322]%N ++ runes_of_ascii "
+,} , @tag( 10
+    ) int8
+    pack@lengthOf(x
+    ), Logon ,	@tag( 00
+) repeat
+rootA
+uint8x ,  @calculatedFrom( ""\n"" // a // b
+) // `tick` ""quote"" 'q'
+@lengthOf( len )
+// @lengthOf(
 // `tick` ""quote"" 'q'
-,
-} , }")).
-Eval vm_compute in ("<<<M1838>>>" ++ check (runes_of_ascii "root packet string_ {
-    @leftPad(' ')
-    chars {
-        repeat zchar[0] tag,
-        string falsey,// " ++ [128512]%N ++ runes_of_ascii " emoji
-        repeat char[007] body `two words`,
+BodyLength  { matchKey f32a
+//x
+// `tick` ""quote"" 'q'
+`say ""hi""` ,} ,  char[] leftPad `{ , }` ,
+@lengthOf( float )match repeatCount as	o { 255 : matchKey ,
+    // " ++ [128512]%N ++ runes_of_ascii " emoji
+    00:	A 007 :
+    options1 } , }
+")).
+Eval vm_compute in ("<<<M1825>>>" ++ check (runes_of_ascii "options {
+    Header = u32;
+}
+
+options {
+    i8i8 = f64;
+    body = zchar[00];
+}
+
+//
+MetaData BodyLength {
+    // trailing space 
+}// " ++ [27880; 37322]%N ++ runes_of_ascii "
+
+options {
+    Logon = u64
+    As = true
+    i64_ = '\x00';
+}
+
+root packet asx {
+    @tag(4294967296)
+    roots @lengthOf(A),
+    repeat uint8 u128,
+    int32 i64_,
+    u8 u ``,
+    @lengthOf(len)
+    uint64 matchKey,
+    match rootA as stringy {
+        1 : string_,
+        7 : charz,
+        255 : u128,
+        [0, 0123456789, 1, 007] : len,
+        10 : trueish,
     },
-    @calculatedFrom(""// no comment"")
-    Foo T,// " ++ [128512]%N ++ runes_of_ascii " emoji
+    @rightPad()
+    char[7] int @lengthOf(x) `two words`,
 }")).
-Eval vm_compute in ("<<<M1422>>>" ++ check (runes_of_ascii "options {
+Eval vm_compute in ("<<<M1441>>>" ++ check (runes_of_ascii "
+MetaData  BodyLength	{
+
+zchar[65535	]  As
+`crlf
+line` ,  u16 
+charz
+
+    , 
+body
+len
+,zchar
+	msg_type,
+    uint64 metadata ,
+    }root
+
+packet	//
+	matchKey
+{
+	repeat
+
+    i8i8  `{ , }`	,
+}
+
+    MetaData 
+a1
+	{i8i8 
+Pad `it's` ,  
+  // trailing space 
+    // `tick` ""quote"" 'q'
+
+int64
+
+// " ++ [128512]%N ++ runes_of_ascii " emoji
+roots
+    `doc`,
+
+    Foo BodyLength `u8 x,` , }packet
+    _x
+	{ lengthOf
+	{  pack `" ++ [28040; 24687; 31867; 22411]%N ++ runes_of_ascii "`
+    , string_ 	 // @lengthOf(
+    	,
+    repeat //
+	rootA
+    len
+
+    ,zchar[
+
+1 
+] u8x	,
+	}	,
+	} ")).
+Eval vm_compute in ("<<<M307>>>" ++ check (runes_of_ascii "  packet	charz	{
+// " ++ [27880; 37322]%N ++ runes_of_ascii "
+/// triple
+repeat // c
+string int `" ++ [28040; 24687; 31867; 22411]%N ++ runes_of_ascii "` , @calculatedFrom( ""it's"" ) @tag(
+255 )  f64 // a // b
+asx
+,
+string
+T `doc` ,zchar[
+007 ]tag @lengthOf( //
+Z9_ )`// not a comment` , }
+options{ u= u16; }
+MetaData
+    chars
+    { i16 falsey , f64 pack,
+    char[  1
+    ]
+asx
+`it's`, char[] body ,
+// `tick` ""quote"" 'q'
+//x
+}packet leftPad { @rightPad
+(
+// @lengthOf(
+//x
+)
+repeat Pad float
+    `{ , }`
+,
+    }	options {
+    roots= true;  }
+")).
+Eval vm_compute in ("<<<M1329>>>" ++ check (runes_of_ascii "packet Frame {
+    u8 HK,
+    u8 BK,
+    u8 TK,
+    match HK as Hdr {
+        1 : HdrA,
+        2 : HdrB,
+    },
+    match BK as Body {
+        1 : BodyA,
+        2 : BodyB,
+    },
+    match TK as Trl {
+        1 : TrlA,
+    },
+}
+packet HdrA {
+    u8 a,
+}
+packet HdrB {
+    u16 b,
+}
+packet BodyA {
+    u32 c,
+}
+packet BodyB {
+    u64 d,
+}
+packet TrlA {
+    u8 e,
+}
+root packet Msg {
+    Frame,
+    u8 x,
+}
+")).
+Eval vm_compute in ("<<<M372>>>" ++ check (runes_of_ascii "// @lengthOf(
+MetaData leftPad { string	options1`say ""hi""` ,
+    //x
+    int16 metadata`" ++ [233]%N ++ runes_of_ascii "`,f32 i64_
+//	t
+// c
+, }  packet
+trueish { // c
+MetaDataX roots ,_x
+    a1 , match
+packetx as charz { 0
+: // c
+f32a ,
+} //
+, repeat body Logon , }	options { repeatCount=
+    int8
+charz // `tick` ""quote"" 'q'
+=	char[];  msg_type =""it's""	u
+=
+    007 Z9_
+    = uint32
+    //
+    }")).
+Eval vm_compute in ("<<<M194>>>" ++ check (runes_of_ascii "// `tick` ""quote"" 'q'
+options
+    //	t
+    { }  packet lengthOf // `tick` ""quote"" 'q'
+{  } packet
+// a // b
+// " ++ [27880; 37322]%N ++ runes_of_ascii "
+Foo {
+@tag(
+1
+) string
+uint8x ,_x { chars  , string uint8x , i64 _x //
+`it's`
+    , repeat uint8 As,	}
+, float32
+f32a , @leftPad( '\x00')
+    @calculatedFrom( """ ++ [28040; 24687]%N ++ runes_of_ascii """
+) // trailing space 
+uint8 Logon
+,
+    }")).
+Eval vm_compute in ("<<<M1308>>>" ++ check (runes_of_ascii "packet A {
+    u8 a,
+}
+packet B {
+    u16 b,
+}
+packet C {
+    u32 c,
+}
+root packet M {
+    u16 Kc, u16 Kb, u16 Ka,
+    match Kc as X {
+        9 : A,
+        10 : B,
+    },
+    match Kb as Y {
+        2 : C,
+        1 : A,
+    },
+    match Ka as Z {
+        1 : B,
+    },
+    A, B, C,
+}
+")).
+Eval vm_compute in ("<<<M1274>>>" ++ check (runes_of_ascii "// top
+options
+    // c0
+{ // c1a
+  // c1b
+FixedStringPadFromLeft
+    // c2
+= // c3
+true
+    // c4
+; // c5a
+  // c5b
+}
+    // c6
+root // c7
+packet P {
+    // c10
+char[ // c11a
+  // c11b
+4 // c12a
+  // c12b
+] z // c14
+,
+    // c15
+} // c16a
+  // c16b
+")).
+Eval vm_compute in ("<<<M1505>>>" ++ check (runes_of_ascii "// top
+options {
+    f32a = 0
+}// c5
+
+packet trueish {
+    // c8
+}
+
+// c9
+MetaData _x {
+    char[0123456789] zchar,// c17a
+    // c17b
+    string crc,
+    // c20
+    char[1] options1,
+    uint8 repeatCount,// c28
+}// c29")).
+Eval vm_compute in ("<<<M1634>>>" ++ check (runes_of_ascii "options {
     FixedStringPadChar = '0';
 }
 
@@ -613,37 +802,37 @@ root packet R {
     zchar[8] top,
     repeat zchar[2] zs,
 }")).
-Eval vm_compute in ("<<<M191>>>" ++ check (runes_of_ascii "options
-{ Logon
-=char[	00
-]
-;
-zchar
-    = false Logon =	i8
-    ;}options { asx = '0' int = ""\" ++ [233]%N ++ runes_of_ascii """  calculatedFrom= '\x00'// packet A { u8 x, }
-; // `tick` ""quote"" 'q'
-}
+Eval vm_compute in ("<<<M44>>>" ++ check (runes_of_ascii "
+packet repeatCount
+    {
+trueish , } packet uint8x
+{/// triple
+match u8x as calculatedFrom
+    { [ 4294967296 ]: len ,
+[ """ ++ [128512]%N ++ runes_of_ascii """ ,	""" ++ [233]%N ++ runes_of_ascii "t" ++ [233]%N ++ runes_of_ascii """ , 255 , //
+1
+] : falsey , } , }
 ")).
-Eval vm_compute in ("<<<M250>>>" ++ check (runes_of_ascii "MetaData // a // b
-o {string Foo
-    , }
-MetaData  msg_type { Header len `" ++ [28040; 24687; 31867; 22411]%N ++ runes_of_ascii "`
-,
-    }
-options
-{ tag
-= '0' ;
-    o=
-""CRC32"" ; Logon = ""`tick`"" ;// a // b
-}")).
-Eval vm_compute in ("<<<M416>>>" ++ check (runes_of_ascii "packet uint8x
+Eval vm_compute in ("<<<M187>>>" ++ check (runes_of_ascii "
+options// " ++ [27880; 37322]%N ++ runes_of_ascii "
+{
+f32a= ""a\""b""//x
+; Z9_ = // " ++ [27880; 37322]%N ++ runes_of_ascii "
+""`tick`""	Logon
+    // " ++ [27880; 37322]%N ++ runes_of_ascii "
+    =""CRC32""u128= f64 ;rootA	=
+false ;} //	t
+packet lengthOf {
+} MetaData len { }
+")).
+Eval vm_compute in ("<<<M466>>>" ++ check (runes_of_ascii "packet uint8x
 { match pack
-    as as msg_type	{
+    as msg_type	{
     0123456789 :	float
 }
 ,
 } packet //	t
-a1
+a1 a1
     { } options {packetx
     = '\x00'	; u128= ""a	b""  ; }
 ")).
@@ -655,18 +844,18 @@ crc //x
 = ""abc"" ;
     msg_type =
 i16 }")).
-Eval vm_compute in ("<<<M457>>>" ++ check (runes_of_ascii "packet uint8x
+Eval vm_compute in ("<<<M462>>>" ++ check (runes_of_ascii "packet uint8x
 { match pack
     as msg_type	{
     0123456789 :	float
 }
 ,
-packet } //	t
-a1
+} a1 //	t
+packet
     { } options {packetx
     = '\x00'	; u128= ""a	b""  ; }
 ")).
-Eval vm_compute in ("<<<M495>>>" ++ check (runes_of_ascii "packet uint8x
+Eval vm_compute in ("<<<M505>>>" ++ check (runes_of_ascii "packet uint8x
 { match pack
     as msg_type	{
     0123456789 :	float
@@ -675,312 +864,251 @@ Eval vm_compute in ("<<<M495>>>" ++ check (runes_of_ascii "packet uint8x
 } packet //	t
 a1
     { } options {packetx
-     '\x00'	; u128= ""a	b""  ; }
+    = '\x00'	 u128= ""a	b""  ; }
 ")).
-Eval vm_compute in ("<<<M1432>>>" ++ check (runes_of_ascii "  packet A{
-
-    match
-	k
-    as
-
-n 
-{ [ 1 ,
-
-    22
-
-, 
-""c c""
-
-,
-4  ,	5
-    ,
-    ""f""	,  7 
-,8,	""i"" ,
-
-10
-,
-11
-
-] 
-:B ,
-	2 : 
-C  }
-,
-	}
-
-")).
-Eval vm_compute in ("<<<M1759>>>" ++ check (runes_of_ascii "
-packet
-A
-{match k
-
-    as
-
-    n
-    {	[""a""
-
-,""bb"",
-    007 , ""d""
-
-,
-
-""e""
-
-,
-
-    66	,
-
-    ""g"",	""h"" ,
-    9 ]
-    :B
-
-2
-: C}
-, }
-
-")).
-Eval vm_compute in ("<<<M688>>>" ++ check (runes_of_ascii "// @lengthOf(
-packet i8i8 { u128 o , }
-options { MetaDataX = true;
-    BodyLength =""packet"" x_y_z= 007
-crc //x
-= ""abc"" ;
-    msg_type =
-i16")).
-Eval vm_compute in ("<<<M1410>>>" ++ check (runes_of_ascii "packet
-	A 
-{
-    match
-	k
-	as
-n
-{
-[
-	""a"" ,  ""bb"",
-
-""c c""	,	""d""
-
-,
-
-    ""e""
-    ,
-""f""  ,
-""g""
-    ]:
-
-    B
-
-, 
-2
-    :
-C }
-,
-	}
-")).
-Eval vm_compute in ("<<<M1412>>>" ++ check (runes_of_ascii "
-
-  packet 
-A
-{
-    u16	len@lengthOf( body 
-)	`a
-b`
-,
-	u32
-    crc
-	@calculatedFrom(
-    ""CRC32"" 
-)	`a
-b` ,  string  body , }")).
-Eval vm_compute in ("<<<M970>>>" ++ check (runes_of_ascii "packet A {
-    match k as n {
-        ""x\
-y"" : B,
-        [""x\
-y"", 1] : C,
-        [1,2,3,4,5,""x\
-y""] : D,
-    },
-}")).
-Eval vm_compute in ("<<<M1173>>>" ++ check (runes_of_ascii "MetaData leftPad { chars MetaDataX , } packet repeatCount { char[ 255 ] uint8x `" ++ [233]%N ++ runes_of_ascii "` , // c
-} MetaData pack { As Foo , }")).
-Eval vm_compute in ("<<<M1420>>>" ++ check (runes_of_ascii "MetaData Packet {
-    u lengthOf `say ""hi""`,
+Eval vm_compute in ("<<<M1667>>>" ++ check (runes_of_ascii "options {
+    body = """ ++ [28040; 24687]%N ++ runes_of_ascii """
 }
 
-MetaData metadata {
-    crc chars `crlf
-    line`,
-    asx f32a,
+packet matchKey {
+    string_ @lengthOf(f32a),
+    int32 int @lengthOf(u128),
+    tag x_y_z,
+}
+
+packet BodyLength {
 }")).
-Eval vm_compute in ("<<<M880>>>" ++ check (runes_of_ascii "packet A {
+Eval vm_compute in ("<<<M120>>>" ++ check (runes_of_ascii "packet float {@calculatedFrom(
+// " ++ [128512]%N ++ runes_of_ascii " emoji
+// packet A { u8 x, }
+""CRC32"" )Foo `" ++ [28040; 24687; 31867; 22411]%N ++ runes_of_ascii "`	,@calculatedFrom( ""a\\"" )
+    zchar[ 0 ]	msg_type `doc` , }")).
+Eval vm_compute in ("<<<M1664>>>" ++ check (runes_of_ascii "
+
+  packet A
+	{
+	match
+
+    k
+    as 
+n  { [""a""
+,
+    22
+,	""c c"" , 4
+	, 
+""e""
+,66  ,
+    ""g""
+,	8
+
+,
+
+    ""i""
+	,10, ""k""
+]:B	2 : C	}
+
+,	}")).
+Eval vm_compute in ("<<<M1436>>>" ++ check (runes_of_ascii "MetaData 
+leftPad {chars 
+	// c
+MetaDataX  ,
+
+    }packet	repeatCount {char[ 255 ]
+
+uint8x
+    `" ++ [233]%N ++ runes_of_ascii "`  ,}MetaData
+pack { As  Foo
+
+,}
+")).
+Eval vm_compute in ("<<<M1648>>>" ++ check (runes_of_ascii "packet A {
+    match k as n {
+        [
+            1, 22, ""c c"", 4, 5,
+            ""f"", 7
+        ] : B,
+        2 : C,
+    },
+}")).
+Eval vm_compute in ("<<<M1258>>>" ++ check (runes_of_ascii "packet B {
+    u8 a,
+}
+root packet P {
+    u8 K,
+    u8 L @lengthOf(Body),
+    match K as Body {
+        1 : B,
+    },
+}
+")).
+Eval vm_compute in ("<<<M1161>>>" ++ check (runes_of_ascii "MetaData leftPad { chars MetaDataX , } packet repeatCount { // c
+char[ 255 ] uint8x `" ++ [233]%N ++ runes_of_ascii "` , } MetaData pack { As Foo , }")).
+Eval vm_compute in ("<<<M39>>>" ++ check (runes_of_ascii "options { o =
+    '\x00' // " ++ [128512]%N ++ runes_of_ascii " emoji
+; T = u32 ; msg_type
+// `tick` ""quote"" 'q'
+//
+= ""a	b""  a1 = '\x00'
+}
+// " ++ [128512]%N ++ runes_of_ascii " emoji
+")).
+Eval vm_compute in ("<<<M1244>>>" ++ check (runes_of_ascii "// top
+root // c0
+packet // c1
+P { // c3
+repeat // c4
+char cs
+    // c6
+, u8 x // c9a
+  // c9b
+, }
+    // c11
+")).
+Eval vm_compute in ("<<<M897>>>" ++ check (runes_of_ascii "packet A {
   match k as n {
-    [""a"", ""bb"", ""c c"", ""d"", ""e"", ""f"", ""g"", ""h"", ""i"", ""j""] : B,
+    [""a"", 22, ""c c"", 4, ""e"", 66, ""g"", 8, ""i"", 10, ""k""] : B,
     2 : C
   },
 }")).
-Eval vm_compute in ("<<<M944>>>" ++ check (runes_of_ascii "packet A {
+Eval vm_compute in ("<<<M956>>>" ++ check (runes_of_ascii "packet A {
     Inner {
-        u8 x `a
-
-b`,
+        u8 x `
+x`,
         Deep {
-            u8 y `a
-
-b`,
+            u8 y `
+x`,
         },
     },
 }")).
-Eval vm_compute in ("<<<M373>>>" ++ check (runes_of_ascii "  MetaData leftPad { /// triple
-char[] body,  As options1
-//
-/// triple
-,
-o
-    //x
-    i64_
-, }
+Eval vm_compute in ("<<<M1>>>" ++ check (runes_of_ascii "MetaData  crc {  Pad T
+, zchar[
+    0123456789
+    ] a1 ,int8 trueish// c
+, } packet float{ }
 ")).
-Eval vm_compute in ("<<<M610>>>" ++ check (runes_of_ascii "
+Eval vm_compute in ("<<<M869>>>" ++ check (runes_of_ascii "packet A {
+  match k as n {
+    [1, ""bb"", 007, ""d"", 5, ""f"", 7, ""h"", 9] : B,
+    2 : C
+  },
+}")).
+Eval vm_compute in ("<<<M858>>>" ++ check (runes_of_ascii "packet A {
+  match k as n {
+    [""a"", 22, ""c c"", 4, ""e"", 66, ""g"", 8] : B,
+    2 : C
+  },
+}")).
+Eval vm_compute in ("<<<M612>>>" ++ check (runes_of_ascii "
 packet
     asx {match u128 as lengthOf
 {
 //	t
 // `tick` ""quote"" 'q'
-255 : x repeat
-    } ,	}")).
-Eval vm_compute in ("<<<M585>>>" ++ check (runes_of_ascii "
-packet
-    asx {match u128 as @lengthOf(
-{
-//	t
-// `tick` ""quote"" 'q'
 255 : x ,
-    } ,	}")).
-Eval vm_compute in ("<<<M569>>>" ++ check (runes_of_ascii "
-packet
-    asx {u128 match as lengthOf
-{
-//	t
-// `tick` ""quote"" 'q'
-255 : x ,
-    } ,	}")).
-Eval vm_compute in ("<<<M1901>>>" ++ check (runes_of_ascii "
-packet
-
-A  {
-B b`a
-b`
-	,
-
-    B  `a
-b`, repeat
-
-    B
-
-    bs
-	`a
-b`
-
-    ,
-	}")).
-Eval vm_compute in ("<<<M556>>>" ++ check (runes_of_ascii "
-,
-    asx {match u128 as lengthOf
-{
-//	t
-// `tick` ""quote"" 'q'
-255 : x ,
-    } ,	}")).
-Eval vm_compute in ("<<<M848>>>" ++ check (runes_of_ascii "packet A {
+     ,	}")).
+Eval vm_compute in ("<<<M1246>>>" ++ check (runes_of_ascii "options {
+    LittleEndian = true;
+}
+root packet P {
+    repeat char cs,
+    u8 x,
+}
+")).
+Eval vm_compute in ("<<<M816>>>" ++ check (runes_of_ascii "packet A {
   match k as n {
-    [1, 22, ""c c"", 4, 5, ""f"", 7] : B
+    [""a"", ""bb"", ""c c"", ""d"", ""e""] : B
     2 : C
   },
 }")).
-Eval vm_compute in ("<<<M1666>>>" ++ check (runes_of_ascii "options {
-    o = '\x00';
-    T = u32;
-    msg_type = ""a	b""
-    a1 = '\x00'
-}")).
-Eval vm_compute in ("<<<M806>>>" ++ check (runes_of_ascii "packet A {
+Eval vm_compute in ("<<<M269>>>" ++ check (runes_of_ascii "options
+{ Z9_ ='\x00'  } packet trueish
+{ // " ++ [128512]%N ++ runes_of_ascii " emoji
+u16 calculatedFrom
+, }")).
+Eval vm_compute in ("<<<M822>>>" ++ check (runes_of_ascii "packet A {
   match k as n {
-    [""a"", 22, ""c c"", 4] : B,
+    [1, 22, ""c c"", 4, 5] : B
     2 : C
   },
 }")).
-Eval vm_compute in ("<<<M794>>>" ++ check (runes_of_ascii "packet A {
+Eval vm_compute in ("<<<M800>>>" ++ check (runes_of_ascii "packet A {
   match k as n {
-    [""a"", 22, ""c c""] : B
+    [1, 22, 007, 4] : B,
     2 : C
   },
 }")).
-Eval vm_compute in ("<<<M1680>>>" ++ check (runes_of_ascii "packet o {
-}
-
-packet Pad {
-    BodyLength,
-}
-
-packet metadata {
+Eval vm_compute in ("<<<M781>>>" ++ check (runes_of_ascii "packet A {
+  match k as n {
+    [""a"", ""bb""] : B
+    2 : C
+  },
 }")).
-Eval vm_compute in ("<<<M261>>>" ++ check (runes_of_ascii "options{ asx= ""1"" //	t
-Pad =  0 stringy =
-    '\x00'
-    ; }")).
-Eval vm_compute in ("<<<M760>>>" ++ check (runes_of_ascii "MetaData @rightPad 3 i32 int32 ; int8 body ""a	b"" `" ++ [28040; 24687; 31867; 22411]%N ++ runes_of_ascii "`")).
-Eval vm_compute in ("<<<M1207>>>" ++ check (runes_of_ascii "packet body { i32 f32a // c
-`{ , }` , } options { }")).
-Eval vm_compute in ("<<<M945>>>" ++ check (runes_of_ascii "MetaData M {
-    u8 x `a
-
-b`,
-    T t `a
-
-b`,
-}")).
-Eval vm_compute in ("<<<M1917>>>" ++ check (runes_of_ascii "packet
-
-    A
-{u8
-x`d" ++ [6158]%N ++ runes_of_ascii "` , 	 // c" ++ [6158]%N ++ runes_of_ascii "
-	}
-
-")).
-Eval vm_compute in ("<<<M1801>>>" ++ check (runes_of_ascii "  root
-	packet
-    A
-{ 
-u8 x	`
-x`  ,}")).
-Eval vm_compute in ("<<<M1043>>>" ++ check (runes_of_ascii "packet A {
- u8 x `d 	`, // c 	
-}")).
-Eval vm_compute in ("<<<M1028>>>" ++ check (runes_of_ascii "packet A {
- u8 x `d" ++ [8287]%N ++ runes_of_ascii "`, // c" ++ [8287]%N ++ runes_of_ascii "
-}")).
-Eval vm_compute in ("<<<M217>>>" ++ check (runes_of_ascii "root	packet falsey
+Eval vm_compute in ("<<<M1222>>>" ++ check (runes_of_ascii "// top
+packet
+    // c0
+x
+    // c1
 {
+    // c2
 }
+    // c3
 ")).
-Eval vm_compute in ("<<<M1718>>>" ++ check (runes_of_ascii "// c
+Eval vm_compute in ("<<<M1406>>>" ++ check (runes_of_ascii "packet body {
+    i32 f32a `{ , }`,
+}
 
-MetaData
-	u{
-}
-")).
-Eval vm_compute in ("<<<M22>>>" ++ check (runes_of_ascii "packet leftPad {
+// c
+options {
 }")).
-Eval vm_compute in ("<<<M1001>>>" ++ check (runes_of_ascii "packet A {
+Eval vm_compute in ("<<<M1206>>>" ++ check (runes_of_ascii "packet body { i32
+// c
+f32a `{ , }` , } options { }")).
+Eval vm_compute in ("<<<M1073>>>" ++ check (runes_of_ascii "packet A {} packet B {} MetaData M {} options {}")).
+Eval vm_compute in ("<<<M1816>>>" ++ check (runes_of_ascii "root packet A {
+    u8 x `tab
+        	x`,
+}")).
+Eval vm_compute in ("<<<M1900>>>" ++ check (runes_of_ascii "
+packet
+A{
+	u8
+	x
+	`d" ++ [8192]%N ++ runes_of_ascii "`, 	 // c" ++ [8192]%N ++ runes_of_ascii "
+
+  }
+")).
+Eval vm_compute in ("<<<M1090>>>" ++ check (runes_of_ascii "packet A { @tag( // a
+ 1 ) u8 x, }")).
+Eval vm_compute in ("<<<M1914>>>" ++ check (runes_of_ascii "packet A 
+{  u8
+
+x
+
+`a
+
+b` ,}
+")).
+Eval vm_compute in ("<<<M1945>>>" ++ check (runes_of_ascii "MetaData repeatCount {
 }
-// c" ++ [8192]%N)).
-Eval vm_compute in ("<<<M172>>>" ++ check (runes_of_ascii "packet
-len { }
+//	t")).
+Eval vm_compute in ("<<<M1595>>>" ++ check (runes_of_ascii "  packet
+
+pack
+    {
+}
 
 ")).
-Eval vm_compute in ("<<<M409>>>" ++ check (runes_of_ascii "packet uint8x
-{")).
-Eval vm_compute in ("<<<M1577>>>" ++ check (runes_of_ascii "options {
+Eval vm_compute in ("<<<M1395>>>" ++ check (runes_of_ascii "root packet chars {
 }")).
-Eval vm_compute in ("<<<M1529>>>" ++ check (runes_of_ascii "// " ++ [27880; 37322]%N)).
+Eval vm_compute in ("<<<M1839>>>" ++ check (runes_of_ascii "
+packet falsey {}
+")).
+Eval vm_compute in ("<<<M1037>>>" ++ check (runes_of_ascii "// c" ++ [12]%N ++ runes_of_ascii "
+packet A {
+}")).
+Eval vm_compute in ("<<<M1034>>>" ++ check (runes_of_ascii "packet A {
+}// c" ++ [12]%N)).
+Eval vm_compute in ("<<<M1738>>>" ++ check (runes_of_ascii "  options {	}
+")).
+Eval vm_compute in ("<<<M1040>>>" ++ check (runes_of_ascii "// c 	")).
+Eval vm_compute in ("<<<M746>>>" ++ check (runes_of_ascii "UXk")).
